@@ -157,8 +157,10 @@ def check(ctx):
     sv = [s for s in F.stmts if isinstance(s, ast.Assign) and dotted(s.targets[0]) == "state_vars"]
     iffs = [s for s in F.stmts if isinstance(s, ast.Assign) and dotted(s.targets[0]) == "iffs"]
     ctx.require(len(sv) == 1 and len(iffs) == 1, "Cross.apply: state_vars / iffs not found")
-    t = ast.unparse(iffs[0].value).replace(" ", "")
-    ok = t.startswith("list(map(lambdan:Iff(state_vars[n],And([*flattened_combinations[n]])),range(len(state_vars))))")
+    from ..sym import Env as _E, sym as _symx
+    t = str(_symx(iffs[0].value, _E()))
+    ok = t in ("[Iff(state_vars[_b0], And([*flattened_combinations[_b0]])) for _b0 in range(len(state_vars))]",
+               "list([Iff(state_vars[_b0], And([*flattened_combinations[_b0]])) for _b0 in range(len(state_vars))])")
     ctx.check(ok, R, ca, "state var definitions", "every state variable is defined by an Iff with its combination (all indices of the allocated range)",
               "the Iff definitions no longer cover every state variable: %s" % ast.unparse(iffs[0].value)[:140], iffs[0])
     cf = [c for c, st in F.calls_named("cnf_fn")]
